@@ -707,7 +707,8 @@ def run_bounded(ctx: Ctx) -> Report:
              "(nonterminal X_1 and terminal X_2 elsewhere in the grammar) / twice (the rule occurs twice); x {min_fill, quickbb, acb}")
     rule_txt = ("one case = (decorated shape, method, entry point); shapes are canonical under node renaming, decoration "
                 "(node labels, edge kinds, domain sizes 1-3, weights) is seeded per shape; distinct = distinct canonical JSON "
-                "recipe; non-trivial = the factorization really split the rule (>= 1 fresh nonterminal produced)")
+                "recipe; non-trivial = the factorization really split the rule (>= 1 fresh nonterminal produced); node ids are "
+                "strings, so set iteration inside the library follows PYTHONHASHSEED (fixed to 0 by ./check)")
     names = {"rule": "fggs.factorize.factorize_rule(labels=None) [fresh names, not wider, inline-isomorphic, method, frame]",
              "hrg": "fggs.factorize.factorize_hrg [start, terminals, fresh names, not wider, inline-isomorphic, method, frame]",
              "fgg": "fggs.factorize.factorize_fgg [same + factors, domains, sum-product equal]"}
